@@ -1760,6 +1760,18 @@ def run(ctx: Ctx, driver: Driver):
         # ---- the excluded point, run and reported
         await conn.put("/characteristics", b"")
         ctx.notes.append(f"put(target, b'') on {host}: {last()[0]!r} (outside the theorem: not reachable through the pairing API)") if host == HOSTS[0] and not secure else None
+        # ... judged all the same, by what BOTH readings of "only when there is a body" demand of an empty body: either neither
+        # header, or Content-Length: 0 followed by Content-Type - never one without the other, never in the other order
+        for name, fn in (("put", conn.put), ("post", conn.post)):
+            await fn("/characteristics", b"")
+            req = last()[0]
+            head = req.split(b"\r\n\r\n", 1)[0].split(b"\r\n")[2:]
+            names = [h.split(b":", 1)[0] for h in head]
+            ctx.evaluations += 1
+            ctx.dist["request:empty-body"] += 1
+            if not (names == [] or (names == [b"Content-Length", b"Content-Type"] and head[0] == b"Content-Length: 0")) or not req.endswith(b"\r\n\r\n"):
+                ctx.violation(f"request/{name}/empty-body-headers", f"{name}(target, b'') on {host} wrote {req!r}: for an empty body the request must carry either neither Content-Length nor "
+                              "Content-Type, or `Content-Length: 0` followed by Content-Type", {"stream": "request", "kind": name + "-empty", "host": host})
         await conn.close()
 
     async def scenario_subscriptions(host):
@@ -1951,8 +1963,20 @@ def replay(ctx, driver, c):
             layout.setdefault(it[0], []).append(it[1])
         return mk_pairing(rig.conn, {a: sorted(set(i)) for a, i in layout.items()})
 
+    async def empty_body(rig):
+        name = c["kind"].split("-")[0]
+        n0 = len(rig.requests)
+        await getattr(rig.conn, name)("/characteristics", b"")
+        req = rig.requests[-1][0] if len(rig.requests) > n0 else b""
+        head = req.split(b"\r\n\r\n", 1)[0].split(b"\r\n")[2:]
+        names = [h.split(b":", 1)[0] for h in head]
+        if not (names == [] or (names == [b"Content-Length", b"Content-Type"] and head[0] == b"Content-Length: 0")):
+            rctx.violation(f"request/{name}/empty-body-headers", f"{name}(target, b'') wrote {req!r}", c)
+
     async def go():
-        if stream == "json-entry":
+        if stream == "request" and str(c.get("kind", "")).endswith("-empty"):
+            await on_rig(empty_body)
+        elif stream == "json-entry":
             await on_rig(lambda rig: json_entry_case(rctx, check, rig, host, secure, c["entry"], c["target"], json.loads(c["doc"])))
         elif stream == "tlv-entry":
             await on_rig(lambda rig: tlv_entry_case(rctx, check, rig, host, secure, c["target"], [(t, bytes.fromhex(v)) for t, v in c["items"]]))
